@@ -19,7 +19,7 @@ RULE = (
 )
 ASSUMPTIONS = [
     "the Sim's lock/condition/select/poll/socket/pipe models are faithful (DESIGN.md 5)",
-    "yield points = every shim operation and every source line of the six connection modules (sys.monitoring LINE) plus every bytecode of HTTPChannel.readable / writable (INSTRUCTION: lock-free reads of shared state)",
+    "yield points = every shim operation and every source line of the six connection modules (sys.monitoring LINE) plus every bytecode of HTTPChannel.readable / writable / handle_write and BaseWSGIServer.maintenance / close_marked_channels (INSTRUCTION: lock-free reads of shared state)",
     "schedules explored: all <=1-pre-emption schedules of the enumerated scenarios, sampled beyond",
 ]
 
